@@ -144,4 +144,25 @@ def lexText (s : String) : Except Err (List Line) :=
       | none => pure rest
       | some l => pure (l :: rest)) (.ok [])
 
+/-- the loop of `FllImporter.engine` on raw lines: the loop of the token-level model (`engineLoop`) with the lexer
+    applied to each line when the loop reaches it (a line without a colon is a `SyntaxError` at that line, after the
+    errors of the components completed before it) -/
+def engineLoopText : List String → Option Key → List Line → Engine → Except Err Engine
+  | [], comp, block, e => engineLoop [] comp block e
+  | raw :: rs, comp, block, e =>
+    match lexLine raw.toList with
+    | .error err => .error err
+    | .ok none => engineLoopText rs comp block e
+    | .ok (some l) =>
+      if isHeader l.key then
+        match comp with
+        | some k => (processBlock k block e) >>= engineLoopText rs (some l.key) [l]
+        | none => engineLoopText rs (some l.key) [l] e
+      else engineLoopText rs comp (block ++ [l]) e
+
+/-- `FllImporter.from_string` on a text (equal to `lexText` followed by `fllImport` whenever every line lexes:
+    `Lemmas/CodeFllImportEngine.lean`) -/
+def importTextLazy (fll : String) : Except Err Engine :=
+  engineLoopText ((splitNl fll.toList).map String.ofList) none [] {}
+
 end Op.FllIO
